@@ -39,9 +39,8 @@ Qed.
 
 Section WithTable.
 Variable t : ranks.
-Variable cu : list N -> N.
 Variable f : fam.
-Notation ok := (fun v => cmp_ok t cu f v = true).
+Notation ok := (fun v => cmp_ok t f v = true).
 
 Lemma all_ok_cons {A} (x : result A) l r :
   all_ok (x :: l) = Ok r -> exists a r', x = Ok a /\ all_ok l = Ok r' /\ r = a :: r'.
@@ -205,8 +204,8 @@ Proof.
     destruct (all_ok (map (hpre t) l0)) eqn:B; try discriminate. inv Ha. inv Hb. f_equal.
     cbn [cmp_ok depth] in *. rewrite forallb_forall in Oa, Ob.
     apply (list_hash (eq_f n) l l0 a a0); auto.
-    + apply Forall_forall. intros x I. destruct (leaf_cmp_ok t cu f x (Oa x I)). apply KID; auto. lia.
-    + apply Forall_forall. intros y I. destruct (leaf_cmp_ok t cu f y (Ob y I)). auto.
+    + apply Forall_forall. intros x I. destruct (leaf_cmp_ok t f x (Oa x I)). apply KID; auto. lia.
+    + apply Forall_forall. intros y I. destruct (leaf_cmp_ok t f y (Ob y I)). auto.
   - (* dict *)
     cbn [hpre] in Ha, Hb. destruct sym; try discriminate. destruct sym0; try discriminate.
     change (map (fun kv : key * pv => (fst kv, (is_missing (snd kv), hpre t (snd kv)))) ents) with (map G ents) in Ha.
